@@ -457,8 +457,8 @@ func c12Extra(c *Ctx, pk *packages.Package) {
 	}
 	// in-place sites
 	allowed := map[string]string{
-		"private/buf/bufctl.filterImage":              "the controller filters the image it just built or read and hands only the result on",
-		"private/buf/cmd/buf/command/convert.run":     "convert builds a private schema image for one message",
+		"private/buf/bufctl.filterImage":                     "the controller filters the image it just built or read and hands only the result on",
+		"private/buf/cmd/buf/command/convert.run":            "convert builds a private schema image for one message",
 		"private/buf/cmd/buf/command/convert.getSchemaImage": "convert builds a private schema image for one message",
 	}
 	obj := pk.Types.Scope().Lookup("WithMutateInPlace")
